@@ -154,6 +154,9 @@ func (r *mapRun) checkAll() string {
 		if got := m.String(); got != sb.String() {
 			return r.errf("copy %d: String = %q, want %q", ci, got, sb.String())
 		}
+		for i := range keys { // Keys returns a fresh slice: scribbling on it must not reach the map
+			keys[i] = -31337
+		}
 	}
 	// full forward and backward iteration
 	m := r.m[r.step&1]
